@@ -10,6 +10,7 @@ import Propka.Model.DetsDriver
 import Propka.Model.EnergyDriver
 import Propka.Model.Protonate
 import Propka.Model.PairLoop
+import Propka.Model.Angle
 /-! Line-protocol driver: one request per line `<module> <args…>`, one response line each. -/
 open Propka
 
@@ -29,6 +30,7 @@ def dispatch (ws : List String) : String :=
   | "prot" :: r => Prot.handle r
   | "pairloop" :: r => PairLoop.handle r
   | "topup" :: r => TopUp.handle r
+  | "angle" :: r => Angle.handle r
   | ["ping"] => "pong"
   | _ => "bad-op"
 
